@@ -148,13 +148,16 @@ impl<T, N: ArrayLength> Iterator for GenericArrayIter<T, N> {
 
     fn nth(&mut self, n: usize) -> Option<T> {
         // First consume values prior to the nth.
-        let next_index = self.index + cmp::min(n, self.len());
+        let index = self.index;
+        let next_index = index + cmp::min(n, self.len());
+
+        // Advance first, so that a panicking destructor cannot lead to the
+        // skipped elements being dropped a second time by `Drop`.
+        self.index = next_index;
 
         unsafe {
-            ptr::drop_in_place(self.array.get_unchecked_mut(self.index..next_index));
+            ptr::drop_in_place(self.array.get_unchecked_mut(index..next_index));
         }
-
-        self.index = next_index;
 
         self.next()
     }
@@ -208,13 +211,16 @@ impl<T, N: ArrayLength> DoubleEndedIterator for GenericArrayIter<T, N> {
     }
 
     fn nth_back(&mut self, n: usize) -> Option<T> {
-        let next_back = self.index_back - cmp::min(n, self.len());
+        let index_back = self.index_back;
+        let next_back = index_back - cmp::min(n, self.len());
+
+        // Retreat first, so that a panicking destructor cannot lead to the
+        // skipped elements being dropped a second time by `Drop`.
+        self.index_back = next_back;
 
         unsafe {
-            ptr::drop_in_place(self.array.get_unchecked_mut(next_back..self.index_back));
+            ptr::drop_in_place(self.array.get_unchecked_mut(next_back..index_back));
         }
-
-        self.index_back = next_back;
 
         self.next_back()
     }
